@@ -169,7 +169,7 @@ def run_mode(mode, peer, kind, base, maxrep, reply_fn, env, use_fetch=False, all
         from gufo.snmp import SnmpVersion
         from gufo.snmp.async_client import SnmpSession
         from gufo.snmp.user import Aes128Key, DesKey, Md5Key, Sha1Key, User
-        kw = dict(timeout=0.2, max_repetitions=maxrep, allow_bulk=allow_bulk)
+        kw = dict(timeout=1.5, max_repetitions=maxrep, allow_bulk=allow_bulk)
         if peer.kind == "v3":
             s = peer.state
             sess = SnmpSession("127.0.0.1", port=port, engine_id=s.engine_id, user=e2e.client_user(s), **kw)
